@@ -516,8 +516,16 @@ def run(prog: Program, chk: Check):
         grid = sorted({c_ + d_ for c_ in (0, 1, 10, 99, 100, 199, 200, 32767, 65535, Kc["MAX_MESSAGE_TYPES"], -2147483648, 2147483647) for d_ in (-1, 0, 1)})
         witness = None
         try:
+            def cond_holds(c_, v_):
+                try:
+                    return bool(ev_range(c_, v_, p_, cm_))
+                except _Opaque:
+                    if p_ in flow.access_paths(guards.subst(c_, cm_)):
+                        raise
+                    return True  # a condition that does not mention the id ("not the core file", "core definitions imported"): the user-file case
+
             for v_ in grid:
-                refused = all(bool(ev_range(c_, v_, p_, cm_)) for c_ in conds)
+                refused = all(cond_holds(c_, v_) for c_ in conds)
                 if refused == allowed_(v_, Kc) and witness is None:
                     witness = (v_, refused)
         except _Opaque:
